@@ -1,5 +1,7 @@
 """Per-property job lists (DESIGN.md §4). Every job is decided by a solver."""
 from vrun import Kani, Prop
+from mirq import MirJob
+import mirjobs
 
 S1 = "S1 std RandomState::new -> fixed SipHash keys (kani::stub); IndexMap order and membership do not depend on the seed"
 S2 = "S2 alloc::fmt::format -> empty string (error text is not part of any property)"
@@ -36,6 +38,8 @@ def C13():
                          bounds={"payload1": int(l1), "payload2": int(l2), "schedule": sched, "unwind": 14},
                          symbolic=["payload bytes", "action byte != 3", "reserved byte"],
                          functions=["core::tpkt::Client::read", "model::link::Link::read"], timeout=400, mem_gb=6))
+    jobs.append(MirJob("c13_mir_stream_access", "tpkt::Client::read/read_body call no transport method other than Link::read (composition fact for schedule independence)",
+                       mirjobs.tpkt_read_uses_only_link_read))
     return Prop("C13", [("core/tpkt.rs", "tpkt.rs")], jobs, lowerings=["L2"],
                 assumptions=[S6, DEV,
                              "composition: tpkt::Client::read reaches the stream only through Link::read (private field; checked by the E2 call-set query in C14/C13 when present), so schedule-independence of Link::read (c13_link_read_*) lifts H13a/H13b to every fragmentation",
@@ -66,6 +70,8 @@ def C14():
                          tiers=("quick", "thorough") if k == 1 else ("thorough",),
                          bounds={"payload": 3, "fail_at": k, "unwind": 5}, symbolic=["data", "accepted prefix per write"],
                          functions=["model::link::Link::write", "model::link::Stream::write", "std::io::Write::write_all"], timeout=300, mem_gb=6))
+    jobs.append(MirJob("c14_mir_tpkt_write", "tpkt::Client::write: the u16 handed to tpkt_header equals Message::length() and length()+4 fits 16 bits on every path that sends (else Err); frame is [header, message]; Link::write's result is returned unchanged; same shape for x224::Client::write",
+                       mirjobs.tpkt_write))
     return Prop("C14", [("core/tpkt.rs", "tpkt.rs")], jobs, lowerings=["L2"],
                 assumptions=[S1, S6, S7, DEV, "L2 light error payloads (Error::Io/SslError carry () in the model-checked copy; replay runs on the un-lowered tree)"],
                 stubs=[S1, S7],
@@ -78,7 +84,7 @@ def C14():
 
 PROPS = {"C13": C13, "C14": C14}
 
-MIR_PROPS = []
+MIR_PROPS = ["C13", "C14"]
 
 _TODO = "not claimed yet: machinery for this property is still being built (see DESIGN.md §4 for the plan)"
 NOT_APPLICABLE = {
